@@ -117,6 +117,14 @@ func init() {
 		"internal/race.Errors":      func(fr *frame, a []value) value { return 0 },
 
 		"(*strings.Builder).copyCheck": noop,
+		"internal/stringslite.Clone":   func(fr *frame, a []value) value { return a[0] },
+		"strings.Clone":                func(fr *frame, a []value) value { return a[0] },
+		"bytes.Clone": func(fr *frame, a []value) value {
+			if a[0].([]value) == nil {
+				return []value(nil)
+			}
+			return append([]value{}, a[0].([]value)...)
+		},
 
 		// internal/bytealg
 		"internal/bytealg.MakeNoZero":      extMakeNoZero,
